@@ -9,9 +9,39 @@
    A <sigO> ; <sigW>           -> <call> | <call> | ... (allUncovered; empty line if none)
    F <sigO> ; <sigW> ; <call>  -> bO bW                 (binds of both)
    W <sig>                     -> 1 | 0                 (Sig.wf)
+   K <val> ; <val>             -> eq eqTN classA classB (capture keys of two keyword values: live key equal?,
+                                  type-name key equal?, classes).  A value is `T dtype dims...`,
+                                  `D dtype dims... | bytes...` or `O tyname dims... | ids...`
 -/
 import J2O.Model.C19
+import J2O.Model.C19Key
 open J2O.C19
+
+def natList (s : String) : Option (List Nat) := (toksOf s).mapM String.toNat?
+where toksOf (s : String) : List String := (s.trimAscii.toString.splitOn " ").filter (· ≠ "")
+
+def parseVal (s : String) : Option Key.Val :=
+  let s := s.trimAscii.toString
+  if s.length < 1 then none else
+  let tag := (s.take 1).toString
+  let parts := ((s.drop 1).toString).splitOn "|"
+  match tag, parts with
+  | "T", [h] =>
+    match natList h with
+    | some (d :: dims) => some (.traced d dims)
+    | _ => none
+  | "D", [h, b] =>
+    match natList h, natList b with
+    | some (d :: dims), some bs => some (.data d dims bs)
+    | _, _ => none
+  | "O", [h, b] =>
+    match natList h, natList b with
+    | some (t :: dims), some ps => some (.object t dims ps)
+    | _, _ => none
+  | _, _ => none
+
+def showClass : Key.Class → String
+  | .traced => "traced" | .staticScalar => "scalar" | .arrayConst => "array" | .object => "object"
 
 def parseKind : String → Option Kind
   | "0" => some .posOnly | "1" => some .posOrKw | "2" => some .varPos
@@ -74,6 +104,13 @@ def step (line : String) : String :=
     match parseSig o, parseSig w, parseCall c with
     | some o, some w, some c => b01 (binds o c) ++ " " ++ b01 (binds w c)
     | _, _, _ => "bad-op"
+  | "K", [a, b] =>
+    match parseVal a, parseVal b with
+    | some a, some b =>
+      b01 (decide (Key.captureKey a = Key.captureKey b)) ++ " " ++
+      b01 (decide (Key.captureKeyTN a = Key.captureKeyTN b)) ++ " " ++
+      showClass (Key.classify a) ++ " " ++ showClass (Key.classify b)
+    | _, _ => "bad-op"
   | "W", [s] =>
     match parseSig s with
     | some s => b01 (Sig.wf s)
